@@ -22,6 +22,49 @@ fn non_ascii_content(text: &str) -> BTreeMap<u32, usize> {
     m
 }
 
+/// Non-ASCII scalars strictly inside a bracketed-class range `lo-hi` of a pattern: they are denoted without
+/// being written. With escaping every grapheme is a multi-character token, so no class (hence no range) is formed
+/// and the same scalars are written out one by one; the comparison below has to count them on the plain side.
+fn class_range_interiors(text: &str, m: &mut BTreeMap<u32, usize>) {
+    use regex_syntax::ast::{self, Ast, ClassSet, ClassSetItem};
+    fn item(i: &ClassSetItem, m: &mut BTreeMap<u32, usize>) {
+        match i {
+            ClassSetItem::Range(r) => {
+                for v in (r.start.c as u32 + 1)..(r.end.c as u32) {
+                    if v > 0x7f && char::from_u32(v).is_some() {
+                        *m.entry(v).or_insert(0) += 1;
+                    }
+                }
+            }
+            ClassSetItem::Bracketed(b) => set(&b.kind, m),
+            ClassSetItem::Union(u) => u.items.iter().for_each(|x| item(x, m)),
+            _ => {}
+        }
+    }
+    fn set(s: &ClassSet, m: &mut BTreeMap<u32, usize>) {
+        match s {
+            ClassSet::Item(i) => item(i, m),
+            ClassSet::BinaryOp(o) => {
+                set(&o.lhs, m);
+                set(&o.rhs, m);
+            }
+        }
+    }
+    fn walk(a: &Ast, m: &mut BTreeMap<u32, usize>) {
+        match a {
+            Ast::ClassBracketed(b) => set(&b.kind, m),
+            Ast::Repetition(r) => walk(&r.ast, m),
+            Ast::Group(g) => walk(&g.ast, m),
+            Ast::Alternation(x) => x.asts.iter().for_each(|y| walk(y, m)),
+            Ast::Concat(x) => x.asts.iter().for_each(|y| walk(y, m)),
+            _ => {}
+        }
+    }
+    if let Ok(a) = ast::parse::ParserBuilder::new().nest_limit(5000).build().parse(text) {
+        walk(&a, m);
+    }
+}
+
 pub fn check_case(ctx: &Ctx, tcs: &[String], cfg: &Cfg) {
     // cfg has E (and maybe U); compare against the same settings without them
     let plain_cfg = cfg.without(E | U);
@@ -44,7 +87,8 @@ pub fn check_case(ctx: &Ctx, tcs: &[String], cfg: &Cfg) {
         Err(e) => return crate::findings::report(ctx, viol("C11", "structure", format!("ill-formed-surrogates flags={flags}"), tcs, cfg, &out, json!({"error": e}))),
     };
     let plain_nc = if cfg.has(C) { lang::strip_sgr(&plain_out) } else { plain_out.clone() };
-    let (a, b) = (non_ascii_content(&repaired), non_ascii_content(&plain_nc));
+    let (a, mut b) = (non_ascii_content(&repaired), non_ascii_content(&plain_nc));
+    class_range_interiors(&plain_nc, &mut b);
     if a != b {
         return crate::findings::report(ctx, viol("C11", "structure", format!("escape-multiset-mismatch flags={flags}"), tcs, cfg, &out,
             json!({"escaped": a.iter().map(|(k, v)| format!("U+{k:04X}x{v}")).collect::<Vec<_>>(), "unescaped": b.iter().map(|(k, v)| format!("U+{k:04X}x{v}")).collect::<Vec<_>>(), "unescaped_output": plain_out})));
@@ -85,6 +129,8 @@ pub fn blocks(thorough: bool) -> Vec<Block> {
         b.push(Block::new(crate::props::c05::u_rep_single(&["\u{10000}", "\u{10ffff}", "\u{ffff}"], 5), esc(&[R]), "{e, e+u} x r"));
         b.push(Block::new(Universe::new("U_pairs{e9,1f4a9,a}^<=4", &["\u{e9}", "\u{1f4a9}", "a"], 4, 2, false), esc(&[R, R | X]), "{e, e+u} x {r, r+x}"));
         b.push(Block::new(crate::props::c05::u_rep_single(&["1", "\u{20ac}", " ", "\u{1f4a9}"], 6), esc(&[R | D, R | S, R | NW, R | D | I]), "{e, e+u} x {r+d, r+s, r+W, r+d+i} (class tokens and non-ASCII characters in one repeated unit)"));
+        b.push(Block::new(u_kind_pairs(2, 2, false), esc(&[0]), "{e, e+u}"));
+        b.push(Block::new(u_runs(), esc(&[0, X, I]), "{e, e+u} x {{}, x, i}"));
     } else {
         b.push(Block::new(crate::props::c05::u_rep_single(&["1", "\u{20ac}", " ", "\u{1f4a9}"], 7), esc(&[R | D, R | S, R | NW, R | D | I, R | W | X]), "{e, e+u} x 5 bases"));
         b.push(Block::new(crate::props::c05::u_rep_single(&["\u{e9}", "\u{1f4a9}", "a"], 8), esc(&[R, R | X, R | I, R | G]), "{e, e+u} x {r, r+x, r+i, r+g}"));
@@ -97,6 +143,9 @@ pub fn blocks(thorough: bool) -> Vec<Block> {
         b.push(Block::new(Universe::new("U_adv(A_gc)", A_GC, 2, 2, true), esc(&bases8), "{e, e+u} x 8 bases"));
         b.push(Block::new(Universe::new("U_adv(A_gc)", A_GC, 3, 1, false), esc(&[0, R, X]), "{e, e+u} x {{}, r, x}"));
         b.push(Block::new(Universe::new("U_adv(A_ws)", A_WS, 2, 2, true), esc(&[0, X]), "{e, e+u} x {{}, x}"));
+        b.push(Block::new(u_kind_pairs(2, 3, false), esc(&[0, X]), "{e, e+u} x {{}, x}"));
+        b.push(Block::new(u_kind_pairs(3, 1, false), esc(&bases8), "{e, e+u} x 8 bases"));
+        b.push(Block::new(u_runs(), esc(&bases8), "{e, e+u} x 8 bases"));
     }
     b
 }
